@@ -502,7 +502,9 @@ func (m *Memberlist) LocalNode() *Node {
 	m.nodeLock.RLock()
 	defer m.nodeLock.RUnlock()
 	state := m.nodeMap[m.config.Name]
-	return &state.Node
+	// Return a copy: the record itself is updated in place by the protocol.
+	node := state.Node
+	return &node
 }
 
 // UpdateNode is used to trigger re-advertising the local node. This is
@@ -614,7 +616,10 @@ func (m *Memberlist) Members() []*Node {
 	nodes := make([]*Node, 0, len(m.nodes))
 	for _, n := range m.nodes {
 		if !n.DeadOrLeft() {
-			nodes = append(nodes, &n.Node)
+			// Hand out copies: the records themselves are updated in
+			// place by the protocol while callers read the result.
+			node := n.Node
+			nodes = append(nodes, &node)
 		}
 	}
 
